@@ -51,9 +51,22 @@ pub fn opt_lines(rng: &mut Rng, maxvars: usize, maxops: usize) -> Vec<String> {
             // bounds of the two branches of a query variable (uniform 1/2, unit weights, symmetric
             // query weights) — the situations in which pruning on "bound <= best" vs "<" and
             // tie-breaking between branches matter
-            let profile = if round < 3 { round } else { 3 + rng.below(3) };
+            let profile = if round < 3 { round } else { 3 + rng.below(4) };
+            // rare events (profile 6, three or more query variables): both weights of every
+            // query variable are k / 2^20, every other variable is (1/2, 1/2) — the candidates
+            // then differ by less than the machine epsilon in absolute terms while every sum
+            // stays exactly representable
+            let rare = profile == 6 && q.len() >= 3;
+            let den: u64 = if rare { 1 << 20 } else { 8 };
             let w: Vec<(u64, u64)> = (0..n)
                 .map(|v| match profile {
+                    6 if rare => {
+                        if q.contains(&v) {
+                            (rng.below(9), rng.below(9))
+                        } else {
+                            (den / 2, den / 2)
+                        }
+                    }
                     0 => (4, 4),
                     1 => {
                         // unit weights on the query variables only (the property's domain asks for
@@ -83,7 +96,8 @@ pub fn opt_lines(rng: &mut Rng, maxvars: usize, maxops: usize) -> Vec<String> {
                 })
                 .collect();
             let head = format!(
-                "opt kind=map n={} order={} d={} q={} w={}",
+                "opt kind=map den={} n={} order={} d={} q={} w={}",
+                den,
                 n,
                 csv(&prog.order),
                 bdd_raw_string(d),
@@ -93,7 +107,7 @@ pub fn opt_lines(rng: &mut Rng, maxvars: usize, maxops: usize) -> Vec<String> {
             let r = guarded(|| {
                 let mut m = HashMap::new();
                 for (v, (l, h)) in w.iter().enumerate() {
-                    m.insert(VarLabel::new_usize(v), (RealSemiring(*l as f64 / 8.0), RealSemiring(*h as f64 / 8.0)));
+                    m.insert(VarLabel::new_usize(v), (RealSemiring(*l as f64 / den as f64), RealSemiring(*h as f64 / den as f64)));
                 }
                 let params = WmcParams::new(m);
                 let vars: Vec<VarLabel> = q.iter().map(|&x| VarLabel::new_usize(x)).collect();
